@@ -164,6 +164,22 @@ template <class T> static inline T gen_param (vp::Src& s)
         default: return gen::nice<T> (s);
     }
 }
+// parameter of any element type: integral S (mixed-type calls) draws small integers, floating S as gen_param
+template <class S> static inline S gen_param_any (vp::Src& s)
+{
+    if constexpr (std::is_integral<S>::value)
+    {
+        switch (s.below (4))
+        {
+            case 0: return (S) 0;
+            case 1: return (S) s.range (-4, 4);
+            case 2: return (S) -1;
+            default: return (S) s.range (-100, 100);
+        }
+    }
+    else
+        return gen_param<S> (s);
+}
 // kind: 0 identity, 1 affine (last column 0..0 1), 2 general (random last column)
 template <class M, class T, int N> static inline int gen_matrix (vp::Src& s, M& m)
 {
@@ -217,14 +233,14 @@ template <class T> static inline Vec3<T> gen_param3 (vp::Src& s)
 {
     Vec3<T> v;
     for (int i = 0; i < 3; ++i)
-        v[i] = gen_param<T> (s);
+        v[i] = gen_param_any<T> (s);
     return v;
 }
 template <class T> static inline Vec2<T> gen_param2 (vp::Src& s)
 {
     Vec2<T> v;
     for (int i = 0; i < 2; ++i)
-        v[i] = gen_param<T> (s);
+        v[i] = gen_param_any<T> (s);
     return v;
 }
 template <class T> static inline Vec3<T> gen_angle3 (vp::Src& s)
